@@ -279,11 +279,11 @@ class Verifier:
         pf.spec = True
         pf.old = old
         pf.target_module = func.module
-        for u in contract.uses_post:
-            I.use_lemma(u, pf)
         cname = contract.qualname
         if outcome == 'return':
             pf.locals['result'] = result
+            for u in contract.uses_post:
+                I.use_lemma(u, pf)
             for rc in contract.raises:
                 if rc.iff and rc.when is not None:
                     t = I.truth(I.ev(rc.when, old))
